@@ -143,7 +143,7 @@ def _get_reference_residue(residue, force_field):
 
     if 'modification' in residue:
         modifications = residue['modification']
-        for mod_name in modifications:
+        for mod_name in dict.fromkeys(modifications):  # a modification asked for twice is applied once
             LOGGER.info('Applying modification {} to residue {}-{}{}',
                         mod_name, residue['chain'], resname, residue['resid'])
             if mod_name != 'none':
